@@ -31,13 +31,12 @@ def enumerate_decls(chk, module, cfg, name):
     return path, r.replays
 
 
-def build_corpus(chk, crate, target="target"):
-    """cargo build of a corpus crate.  Returns (ok, compiler output)."""
+def build_corpus(chk, binary, target="target"):
+    """cargo build of one binary of the corpus crate.  Returns (ok, compiler output)."""
     t0 = time.time()
-    p = subprocess.run(["cargo", "build", "--release", "--offline", "--target-dir", target],
-                       cwd=os.path.join(CORPUS, crate), env=vlib.base_env(), stdout=subprocess.PIPE,
-                       stderr=subprocess.STDOUT, text=True)
-    log(f"[build] corpus/{crate} {'ok' if p.returncode == 0 else 'FAILED'} in {time.time()-t0:.1f}s")
+    p = subprocess.run(["cargo", "build", "--release", "--offline", "--target-dir", target, "--bin", binary],
+                       cwd=CORPUS, env=vlib.base_env(), stdout=subprocess.PIPE, stderr=subprocess.STDOUT, text=True)
+    log(f"[build] corpus {binary} {'ok' if p.returncode == 0 else 'FAILED'} in {time.time()-t0:.1f}s")
     return p.returncode == 0, p.stdout
 
 
@@ -48,8 +47,8 @@ def compile_errors(out, limit=12):
     return errs[:limit]
 
 
-def run_corpus(chk, crate, binary, args, trace, target="target"):
-    cmd = [os.path.join(CORPUS, crate, target, "release", binary)] + [str(a) for a in args] + ["--out", trace]
+def run_corpus(chk, binary, args, trace, target="target"):
+    cmd = [os.path.join(CORPUS, target, "release", binary)] + [str(a) for a in args] + ["--out", trace]
     t0 = time.time()
     p = subprocess.run(cmd, cwd=vlib.ROOT, env=vlib.base_env(), stdout=subprocess.PIPE, stderr=subprocess.STDOUT,
                        text=True, timeout=3600)
@@ -104,7 +103,7 @@ def prepare_proxy(chk, thorough):
     decls_path, decls = enumerate_decls(chk, "MCProxyGen", "MCProxyGen_t.cfg" if thorough else "MCProxyGen_q.cfg",
                                         "declarations")
     subprocess.run(["python3", os.path.join(GEN, "proxy.py"), decls_path,
-                    os.path.join(CORPUS, "proxy", "src", "generated.rs")], check=True)
+                    os.path.join(CORPUS, "src", "bin", "proxy", "generated.rs")], check=True)
     return decls
 
 
@@ -128,7 +127,7 @@ def c12(tier):
     chk.assumptions = ["trusted: the scripted socket of the harness and the projection of a captured frame to member names",
                        "argument values are compared with serde_json::to_value of the same argument"]
     decls = prepare_proxy(chk, thorough)
-    ok, out = build_corpus(chk, "proxy")
+    ok, out = build_corpus(chk, "zc-proxy")
     if not ok:
         errs = compile_errors(out)
         chk.violation("the corpus of #[proxy] traits accepted shapes does not compile against /repo's macro: "
@@ -139,7 +138,7 @@ def c12(tier):
         chk.samples = decls[:2]
         return chk.finish()
     trace = chk.wdir("proxy.ndjson")
-    summ = run_corpus(chk, "proxy", "zc-proxy", ["--seed", s, "--rounds", 6 if thorough else 2], trace)
+    summ = run_corpus(chk, "zc-proxy", ["--seed", s, "--rounds", 6 if thorough else 2], trace)
     rejected, _ = validate_events(chk, PT, trace, "proxy", "proxy", brief=_brief_proxy)
     total = summ["calls"] + summ["replies"] + summ["streams"]
     chk.evaluations = total
@@ -168,13 +167,13 @@ def replay_proxy(pid, path):
         print("compile errors are reproduced by: bin/check C12 --tier quick")
         return 1
     prepare_proxy(chk, False)
-    ok, out = build_corpus(chk, "proxy")
+    ok, out = build_corpus(chk, "zc-proxy")
     if not ok:
         print("\n".join(compile_errors(out)))
         print(f"VIOLATION property={pid} replay={path}")
         return 1
     trace = chk.wdir("replay-all.ndjson")
-    run_corpus(chk, "proxy", "zc-proxy", ["--seed", seed(), "--rounds", 1], trace)
+    run_corpus(chk, "zc-proxy", ["--seed", seed(), "--rounds", 1], trace)
     want = rp["case"]
     sel = [l for l in read_lines(trace)
            if '"ev":"reset"' in l or (json.loads(l).get("id") == want.get("id") and json.loads(l).get("ev") == want.get("ev")
@@ -185,6 +184,130 @@ def replay_proxy(pid, path):
     r = vlib.validate_trace(rp["spec"], rp["cfg"], t2, tag=f"{pid}-replay")
     for l in sel[1:]:
         print(json.dumps(_brief_proxy(json.loads(l))))
+    if not r.ok:
+        print(f"VIOLATION property={pid} replay={path}")
+        return 1
+    print("replay accepted by", rp["spec"])
+    return 0
+
+
+# --------------------------------------------------------------------------------------- C16
+
+IT_STRICT = ("IntrospectTrace", "IntrospectTrace_strict.cfg")
+IT_KNOWN = ("IntrospectTrace", "IntrospectTrace_known.cfg")
+
+
+def _brief_intro(e):
+    return {k: v for k, v in e.items() if k not in ("toks", "canon", "derived")}
+
+
+def _rows(groups):
+    """Rows of the Rust -> Varlink table met by the exported groups."""
+    rows = set()
+
+    def walk(t):
+        rows.add(f"{t['k']}:{t['n']}")
+        for x in t["a"]:
+            walk(x)
+    for g in groups:
+        for d in g["customs"] + g["inlines"]:
+            for f in d["fields"]:
+                walk(f["ty"])
+        for e in g["errs"]:
+            rows.add("error:" + e["kind"])
+            for f in e["fields"]:
+                walk(f["ty"])
+        for p in g["probes"]:
+            walk(p)
+    return rows
+
+
+ALL_ROWS = ([f"prim:{n}" for n in ("bool", "i8", "i16", "i32", "i64", "u8", "u16", "u32", "u64", "isize", "usize", "f32", "f64",
+                                   "String", "&str", "char")]
+            + [f"special:{n}" for n in ("Duration", "Instant", "SystemTime", "PathBuf", "OsString", "IpAddr", "Ipv4Addr", "Ipv6Addr",
+                                        "SocketAddr", "SocketAddrV4", "SocketAddrV6", "CowStr", "BoxStr", "BoxPath", "BoxOsStr", "Value")]
+            + ["unit:", "opt:", "seq:Vec", "seq:slice", "seq:HashSet", "seq:BTreeSet", "map:HashMapString", "map:HashMapStr",
+               "map:BTreeMapString", "map:BTreeMapStr", "wrap:Box", "wrap:Rc", "wrap:Arc", "wrap:Cell", "wrap:RefCell",
+               "custom:Rec", "custom:Mode", "inline:Inner", "inline:Kind", "error:unit", "error:struct", "error:tuple"])
+
+
+def prepare_introspect(chk, thorough):
+    path, groups = enumerate_decls(chk, "MCIntrospect", "MCIntrospect_t.cfg" if thorough else "MCIntrospect_q.cfg", "groups")
+    subprocess.run(["python3", os.path.join(GEN, "introspect.py"), path,
+                    os.path.join(CORPUS, "src", "bin", "introspect", "generated.rs")], check=True)
+    return groups
+
+
+def c16(tier):
+    chk = Check("C16", tier)
+    thorough = tier == "thorough"
+    chk.rule = ("model: Introspect.tla maps Rust type expressions to Varlink types (VarlinkOf: 16 primitives, Option, Vec / slice / "
+                "HashSet / BTreeSet, String- and &str-keyed Hash/BTree maps, (), Box / Rc / Arc / Cell / RefCell, 16 std types, "
+                "custom types by name, Type-derived types in place) and a group of declarations to the interface description "
+                "the derives must add up to (IfaceOf: declaration order, Rust names, doc comments as comments; unit / struct / "
+                "single-tuple error variants); TLC builds the groups (structs with 0..6 fields over seeded pools of type "
+                "expressions nested up to 4 levels, enums, error enums in 8 variant orders, lifetimes where references occur, "
+                "doc comments incl. empty and multi-line ones) and exports them; gen/introspect.py emits the Rust declarations, "
+                "the crate is compiled against /repo's derives (a compile failure is a violation) and the derived constants are "
+                "projected through zlink's accessors; TLC validates derived = IfaceOf(group) and the render -> parse law; "
+                "distinct_nontrivial = groups")
+    chk.assumptions = ["trusted: the accessor projection and the lexer of harness/src/idl.rs",
+                       "doc comments are written as #[doc = \"text\"] without a leading blank, as the repository's own tests do",
+                       "the render -> parse clause inherits C14's open finding for enums with a doc-commented variant"]
+    groups = prepare_introspect(chk, thorough)
+    rows = _rows(groups)
+    missing = [r for r in ALL_ROWS if r not in rows]
+    chk.extra["rows_covered"] = len([r for r in ALL_ROWS if r in rows])
+    chk.extra["rows_total"] = len(ALL_ROWS)
+    if missing:
+        raise ToolError(f"table rows not met by the exported groups: {missing}")
+    ok, out = build_corpus(chk, "zc-introspect")
+    if not ok:
+        errs = compile_errors(out)
+        chk.violation("declarations the derives accept do not compile against /repo's macros: "
+                      + (errs[0].splitlines()[0] if errs else "unknown compiler error"),
+                      "\n\n".join(errs) or out[-6000:], "compile-errors.txt")
+        chk.evaluations = len(groups)
+        chk.nontrivial = len(groups)
+        chk.samples = groups[:1]
+        return chk.finish()
+    trace = chk.wdir("introspect.ndjson")
+    summ = run_corpus(chk, "zc-introspect", [], trace)
+    open_kf = [k for k in vlib.known_findings("C16") if k.get("status") == "open"]
+    rejected, known = validate_events(chk, IT_KNOWN if open_kf else IT_STRICT, trace, "introspect", "introspect", brief=_brief_intro)
+    chk.evaluations = summ["groups"]
+    chk.traces_ok = summ["groups"] - rejected - len(known)
+    chk.nontrivial = summ["groups"]
+    chk.extra["cases_witnessing_known_finding"] = len(known)
+    if known and open_kf:
+        chk.known(f"{open_kf[0]['what']} (witnessed in {len(known)} groups, e.g. {sorted(known)[0]})")
+    for l in read_lines(trace)[1:4]:
+        chk.samples.append(_brief_intro(json.loads(l)))
+    return chk.finish()
+
+
+def replay_introspect(pid, path):
+    if not path.endswith(".json"):
+        print(open(path).read())
+        print("compile errors are reproduced by: bin/check C16 --tier quick")
+        return 1
+    rp = json.load(open(path))
+    chk = Check(pid, "quick")
+    prepare_introspect(chk, False)
+    ok, out = build_corpus(chk, "zc-introspect")
+    if not ok:
+        print("\n".join(compile_errors(out)))
+        print(f"VIOLATION property={pid} replay={path}")
+        return 1
+    trace = chk.wdir("replay-all.ndjson")
+    run_corpus(chk, "zc-introspect", [], trace)
+    sel = [l for l in read_lines(trace) if '"ev":"reset"' in l or json.loads(l).get("id") == rp["case"].get("id")]
+    t2 = chk.wdir("replay.ndjson")
+    with open(t2, "w") as f:
+        f.write("\n".join(sel) + "\n")
+    r = vlib.validate_trace(rp["spec"], rp["cfg"], t2, tag=f"{pid}-replay")
+    for l in sel[1:]:
+        print(json.dumps(_brief_intro(json.loads(l))))
     if not r.ok:
         print(f"VIOLATION property={pid} replay={path}")
         return 1
